@@ -138,6 +138,13 @@ func TestSim(t *testing.T) {
 			// trouble: the service spins (livelock). It is reported like any other violation, with the tape
 			// consumed so far as replay (the run is stuck right where that tape ends).
 			site, gid := spinningSiteG(string(buf))
+			class, find := "livelock", spinningSiteG
+			if site == "" {
+				// ... and so is a goroutine that waits for a lock the service's own code asked for and nobody releases
+				if site, gid = lockedSiteG(string(buf)); site != "" {
+					class, find = "blocked-forever", lockedSiteG
+				}
+			}
 			if site != "" {
 				// a run that is merely slow has a goroutine of the service running at any moment too: only a goroutine
 				// that is still running at the same place five seconds later, with the event log not a line longer
@@ -149,7 +156,7 @@ func TestSim(t *testing.T) {
 				time.Sleep(5 * time.Second)
 				buf2 := make([]byte, 8<<20)
 				buf2 = buf2[:runtime.Stack(buf2, true)]
-				site2, gid2 := spinningSiteG(string(buf2))
+				site2, gid2 := find(string(buf2))
 				len2 := -1
 				if r0 := execRun.Load(); r0 != nil {
 					len2 = len(r0.Trace)
@@ -160,8 +167,11 @@ func TestSim(t *testing.T) {
 			}
 			if site != "" {
 				r, tp := execRun.Load(), execTape.Load()
-				v := &Violation{Prop: job.Prop, Class: "livelock", Sig: job.Prop + "|livelock|" + site,
+				v := &Violation{Prop: job.Prop, Class: class, Sig: job.Prop + "|" + class + "|" + site,
 					Msg: fmt.Sprintf("the run did not come to rest within %v of real time: a goroutine of the service keeps running in %s without ever waiting (holding whatever it holds)", stuckAfter, site)}
+				if class == "blocked-forever" {
+					v.Msg = fmt.Sprintf("the run did not come to rest within %v of real time: %s waits for a lock (sync.Mutex / sync.RWMutex) that nobody releases - it was left held on some path; everything that needs it waits with it", stuckAfter, site)
+				}
 				res := &Result{Seed: execSeed.Load(), Viol: v}
 				if r != nil {
 					v.Step = r.Step
@@ -372,7 +382,7 @@ func doShrink(e *Engine, job *Job, out *WorkerOut) {
 		return
 	}
 	job.Opt = rf.Opt
-	if rf.Violation != nil && rf.Violation.Class == "livelock" {
+	if rf.Violation != nil && (rf.Violation.Class == "livelock" || rf.Violation.Class == "blocked-forever") {
 		// every candidate would have to be waited for until the watchdog fires: the tape is kept as found
 		res := &Result{Seed: rf.Seed, Tape: rf.Tape, Viol: rf.Violation, Digest: rf.Digest, Cfg: rf.Cfg, Trace: rf.Trace}
 		p := writeReplay(job, e, rf.Seed, res, rf.OrigLen, "")
